@@ -231,6 +231,32 @@ def run(ctx):
     if eb.n_iter_ < 50 and not gnb < 1.5 * 1e-3:
       ctx.fail_input('stationary', 'stopped before max_iter at a point that is not stationary (many features, prior of large scale: det M overflows, log det does not)',
                      inp, observed=dict(n_iter=int(eb.n_iter_), grad_norm=gnb))
+  # ---- few, mutually consistent comparisons (one metric satisfies them all, the prior does not) on data in units of 5: the
+  # iterates become feasible long before the LogDet term is stationary; a run that stops before max_iter must be stationary
+  for sd, d_c, n_c in ((1, 3, 3), (2, 5, 3), (3, 8, 3), (4, 2, 1)) + (((5, 8, 20), (6, 5, 2)) if thorough else ()):
+    rs = np.random.RandomState(100 + sd)
+    Xc = rs.randn(100, d_c) * 5.0
+    Ac = rs.randn(d_c, d_c)
+    Qc = Xc[np.array([rs.choice(100, 4, replace=False) for _ in range(n_c)])]
+    Mt = Ac.dot(Ac.T)
+    dab = np.einsum('ij,jk,ik->i', Qc[:, 0] - Qc[:, 1], Mt, Qc[:, 0] - Qc[:, 1])
+    dcd = np.einsum('ij,jk,ik->i', Qc[:, 2] - Qc[:, 3], Mt, Qc[:, 2] - Qc[:, 3])
+    Qc[dab > dcd] = Qc[dab > dcd][:, [2, 3, 0, 1]]
+    ctx.count('consistent_comparisons', 1)
+    inp = dict(quadruplets=Qc.tolist(), prior='identity', tol=1e-3, max_iter=1000)
+    try:
+      with warnings.catch_warnings():
+        warnings.simplefilter('ignore')
+        ec = LSML(tol=1e-3, max_iter=1000).fit(Qc)
+      Mc = ec.get_mahalanobis_matrix()
+    except Exception as ex:
+      ctx.fail_input('fit_runs', 'LSML on consistent comparisons raises %s' % type(ex).__name__, inp, observed=str(ex)[:200])
+      continue
+    gc = doc_grad_prior(Mc, np.eye(d_c), Qc[:, 0] - Qc[:, 1], Qc[:, 2] - Qc[:, 3], np.ones(n_c) / n_c)
+    gnc = float(np.linalg.norm(gc))
+    if ec.n_iter_ < 1000 and not gnc < 1.5 * 1e-3:
+      ctx.fail_input('stationary', 'stopped before max_iter at a point that is not stationary (few consistent comparisons: the iterate satisfies them all, the LogDet term is not at rest)',
+                     inp, observed=dict(n_iter=int(ec.n_iter_), grad_norm=gnc))
   cases = [(sd, d, 1.0, tol) for sd in (0, 1, 2) for d in (3, 4) for tol in (1e-5, 1e-6)] + [(0, 4, 30.0, 1e-5)]
   for sd, d, scale, tol in (cases if thorough else cases[1:-1:2] + cases[-1:]):
     Q = scale * np.random.RandomState(sd).randn(40, 4, d)
